@@ -72,6 +72,14 @@ def verify_function(ct, label=None, params=None, observe=None):
         node.args.args, node.args.defaults, node.args.kwonlyargs, node.args.kw_defaults = [_ast.arg(arg=pn) for pn, _ in params], [], [], []
         rep.region = "statements %d..%d of %d (lines %s-%s); the rest of the function is not under this contract" % (
             idx[0], jdx[-1], len(body), getattr(node.body[0], "lineno", "?"), getattr(node.body[-1], "end_lineno", "?"))
+    # a contract whose proof structure no longer binds to the code (a loop it gives an invariant for, or a statement it attaches a ghost
+    # lemma to, is gone) is UNBOUND: undecided, never a violation by itself
+    have_loops = set(repo.loop_keys(full_node).values())
+    gone = [k for k in ct.loops if k not in have_loops]
+    if gone:
+        rep.status, rep.detail = "unbound", "contract gives invariants for loops %s that the current source does not have" % gone
+        return rep
+    fired_hooks = set()
     worklist = [[]]
     seen = set()
     cls = None
@@ -166,9 +174,15 @@ def verify_function(ct, label=None, params=None, observe=None):
             rep.detail = "executor has no rule for a value met here (%s: %s) at %s" % (type(e).__name__, str(e)[:200], _tb.format_exc().strip().splitlines()[-3].strip()[:160])
             rep.obligs.extend(ctx.obligs)
             break
+        fired_hooks |= ctx.ghost.get("_after_fired", set())
         worklist.extend(ctx.pending)
         for o in ctx.obligs:
             rep.obligs.append(o)
+    declared = {(nm, o) for nm, hs in (getattr(ct, "afters", None) or {}).items() for (o, _f) in hs}
+    missing = sorted(d for d in declared if d not in fired_hooks)
+    if missing and rep.status == "ok":
+        rep.status = "unbound"
+        rep.detail = "ghost lemmas attached to assignments %s never applied: those statements are no longer in the function in that form" % missing
     rep.time_s = time.time() - t0
     return rep
 
